@@ -355,6 +355,8 @@ def _execute(case, res, tmp, fs):
                     m2 = [c for c in d2.main_components]
                     if d1.ndim != 1 or d2.ndim != 1 or any(isinstance(l, LH.JoinLink) for l in dc.external_links):
                         continue
+                    if getattr(d1, '_key_joins', None) or getattr(d2, '_key_joins', None):
+                        continue    # a JoinLink and a manual join on one pair contradict each other: which one wins is not defined
                     obj = LH.JoinLink(cids1=[m1[c1 % len(m1)]], cids2=[m2[c2 % len(m2)]], data1=d1, data2=d2)
                 dc.add_link(obj)
             elif k == 'remove_link':
@@ -364,6 +366,8 @@ def _execute(case, res, tmp, fs):
             elif k == 'join':
                 d1, d2 = w.pick_data(op[1]), w.pick_data(op[3])
                 if d1 is None or d1 is d2 or d1.ndim != 1 or d2.ndim != 1:
+                    continue
+                if any(isinstance(l, LH.JoinLink) for l in dc.external_links):
                     continue
                 m1 = [c for c in d1.main_components if d1.get_kind(c) != 'datetime']
                 m2 = [c for c in d2.main_components if d2.get_kind(c) != 'datetime']
